@@ -634,9 +634,11 @@ func (p *PolicyManager) createIPSet(newIPSetMap map[string]*ipsetTable) error {
 		}
 		oldEntriesSet := sets.NewString(oldEntries...)
 		newEntries := sets.NewString()
+		newEntryKeys := sets.NewString()
 		for _, entry := range set.entries {
 			newEntryStr := strings.Join(append([]string{entry.String()}, entry.Options...), " ")
 			newEntries.Insert(newEntryStr)
+			newEntryKeys.Insert(entry.String())
 			if oldEntriesSet.Has(newEntryStr) {
 				continue
 			}
@@ -650,6 +652,11 @@ func (p *PolicyManager) createIPSet(newIPSetMap map[string]*ipsetTable) error {
 		for _, old := range oldEntries {
 			if !newEntries.Has(old) {
 				parts := strings.Split(old, " ")
+				if newEntryKeys.Has(parts[0]) {
+					// only the options of this entry changed, it has been replaced by the add above and deleting
+					// it by its key would remove the new entry
+					continue
+				}
 				if err := p.ipsetHandle.DelEntryWithOptions(name, parts[0], parts[1:]...); err != nil {
 					glog.Warningf("failed to del entry %s from set %s: %v", old, name, err)
 				}
